@@ -1,11 +1,13 @@
 //! World `pair`: the real `dex/pair` contract + a real fees-collector + two real trusted
-//! pairs (FIRST,C) and (SECOND,C), driven through the white-box VM.
+//! pairs (FIRST,C) and (SECOND,C) + the real simple-lock contract (swap output locking),
+//! driven through the white-box VM.
 //! Serves C01–C04 (and the pair part of C20).  Model: lean/MxModel/Core/Pair.lean.
 
 use mxharness::*;
 use num_bigint::BigUint;
 use num_traits::{One, Zero};
 
+use multiversx_sc::imports::StorageTokenWrapper;
 use multiversx_sc::types::{Address, EsdtLocalRole, ManagedAddress, MultiValueEncoded};
 use multiversx_sc_scenario::{
     managed_address, managed_biguint, managed_token_id, rust_biguint, whitebox_legacy::*, DebugApi,
@@ -15,6 +17,7 @@ use fees_collector::config::ConfigModule as _;
 use fees_collector::FeesCollector;
 use pair::config::ConfigModule as _;
 use pair::fee::FeeModule as _;
+use pair::locking_wrapper::LockingWrapperModule as _;
 use pair::pair_actions::add_liq::AddLiquidityModule as _;
 use pair::pair_actions::initial_liq::InitialLiquidityModule as _;
 use pair::pair_actions::remove_liq::RemoveLiquidityModule as _;
@@ -23,6 +26,8 @@ use pair::pair_actions::views::ViewsModule as _;
 use pair::safe_price::SafePriceModule as _;
 use pair::Pair as _;
 use pausable::{PausableModule as _, State};
+use simple_lock::locked_token::{LockedTokenAttributes, LockedTokenModule as _};
+use simple_lock::SimpleLock as _;
 
 const FIRST: &[u8] = b"FIRST-abcdef";
 const SECOND: &[u8] = b"SECOND-abcdef";
@@ -31,12 +36,16 @@ const LP: &[u8] = b"LPTOK-abcdef";
 const LPX1: &[u8] = b"LPXF-abcdef";
 const LPX2: &[u8] = b"LPXS-abcdef";
 const LOCKED: &[u8] = b"LOCKED-abcdef";
+/// the meta-ESDT simple-lock mints for locked swap outputs
+const SLK: &[u8] = b"SLKTOK-abcdef";
 const M: u64 = 100_000;
 
 type PairObj = pair::ContractObj<DebugApi>;
 type PairW = ContractObjWrapper<PairObj, fn() -> PairObj>;
 type CollObj = fees_collector::ContractObj<DebugApi>;
 type CollW = ContractObjWrapper<CollObj, fn() -> CollObj>;
+type LockObj = simple_lock::ContractObj<DebugApi>;
+type LockW = ContractObjWrapper<LockObj, fn() -> LockObj>;
 
 fn to_big(x: &multiversx_sc::types::BigUint<DebugApi>) -> BigUint {
     BigUint::from_bytes_be(x.to_bytes_be().as_slice())
@@ -64,6 +73,17 @@ struct Snap {
     user1: Vec<BigUint>,
     user2: Vec<BigUint>,
     userlp: Vec<BigUint>,
+    // output locking: configuration read from the pair, block epoch, simple-lock's holdings of
+    // the pool tokens, LOCKED tokens (by original pool token) held by every user and by the pair
+    lock_deadline: u64,
+    lock_unlock: u64,
+    lock_sc: u8, // 0 unset, 1 simple-lock, 2 another contract
+    epoch: u64,
+    slk1: BigUint,
+    slk2: BigUint,
+    userlk1: Vec<BigUint>,
+    userlk2: Vec<BigUint>,
+    pairlk: BigUint,
 }
 
 struct PairWorld {
@@ -74,6 +94,11 @@ struct PairWorld {
     xf: PairW,
     xs: PairW,
     coll: CollW,
+    lock: LockW,
+    epoch: u64,
+    /// LOCKED nonces created so far: nonce i+1 wraps pool token `lk_tok[i]` (1 = FIRST, 2 = SECOND, 0 = other)
+    lk_tok: Vec<u8>,
+    lk_unlock: Vec<u64>,
     init1: BigUint, // initial total supply of FIRST / SECOND over all tracked accounts
     init2: BigUint,
     xf_init: BigUint, // initial FIRST held by XF / SECOND held by XS
@@ -95,6 +120,9 @@ fn pair_builder() -> PairObj {
 }
 fn coll_builder() -> CollObj {
     fees_collector::contract_obj()
+}
+fn lock_builder() -> LockObj {
+    simple_lock::contract_obj()
 }
 
 impl PairWorld {
@@ -169,6 +197,8 @@ impl PairWorld {
         let mut s = Snap::default();
         let (mut r1, mut r2, mut sup, mut st, mut tot, mut sp, mut fee_on) =
             (BigUint::zero(), BigUint::zero(), BigUint::zero(), 0u8, 0u64, 0u64, false);
+        let (mut lk_dl, mut lk_ul, mut lk_sc) = (0u64, 0u64, 0u8);
+        let la = self.lock.address_ref().clone();
         self.b
             .execute_query(&self.pair, |sc| {
                 let (a, b, c) = sc.get_reserves_and_total_supply().into_tuple();
@@ -183,8 +213,24 @@ impl PairWorld {
                 tot = sc.total_fee_percent().get();
                 sp = sc.special_fee_percent().get();
                 fee_on = sc.is_fee_enabled();
+                lk_dl = sc.locking_deadline_epoch().get();
+                lk_ul = sc.unlock_epoch().get();
+                lk_sc = if sc.locking_sc_address().is_empty() {
+                    0
+                } else if sc.locking_sc_address().get() == managed_address!(&la) {
+                    1
+                } else {
+                    2
+                };
             })
             .assert_ok();
+        s.lock_deadline = lk_dl;
+        s.lock_unlock = lk_ul;
+        s.lock_sc = lk_sc;
+        s.epoch = self.epoch;
+        s.slk1 = self.bal(&la, FIRST);
+        s.slk2 = self.bal(&la, SECOND);
+        self.discover_locked_nonces();
         s.r1 = r1;
         s.r2 = r2;
         s.s = sup;
@@ -205,8 +251,9 @@ impl PairWorld {
         let xs2 = self.bal(&xsa, SECOND);
         s.ext1 = &xf1 - &self.xf_init;
         s.ext2 = &xs2 - &self.xs_init;
-        let mut tot1 = &s.bal1 + &s.coll1 + &xf1 + self.bal(&self.owner.clone(), FIRST);
-        let mut tot2 = &s.bal2 + &s.coll2 + &xs2 + self.bal(&self.owner.clone(), SECOND);
+        let mut tot1 = &s.bal1 + &s.coll1 + &xf1 + self.bal(&self.owner.clone(), FIRST) + &s.slk1;
+        let mut tot2 = &s.bal2 + &s.coll2 + &xs2 + self.bal(&self.owner.clone(), SECOND) + &s.slk2;
+        s.pairlk = self.locked_of(&pa, 1) + self.locked_of(&pa, 2) + self.locked_of(&pa, 0);
         let mut lpc = s.own.clone() + self.bal(&self.owner.clone(), LP);
         for u in self.users.clone().iter() {
             let a = self.bal(u, FIRST);
@@ -218,11 +265,49 @@ impl PairWorld {
             s.user1.push(a);
             s.user2.push(b2);
             s.userlp.push(l);
+            s.userlk1.push(self.locked_of(u, 1));
+            s.userlk2.push(self.locked_of(u, 2));
         }
         s.lpc = lpc;
         s.burn1 = &self.init1 - &tot1;
         s.burn2 = &self.init2 - &tot2;
         s
+    }
+
+    /// simple-lock keeps the initial unit of every LOCKED nonce it creates, so the nonces in
+    /// existence are found by probing its own balance; the wrapped token and the unlock epoch
+    /// are read from the attributes stored with the token.
+    fn discover_locked_nonces(&mut self) {
+        let la = self.lock.address_ref().clone();
+        loop {
+            let n = self.lk_tok.len() as u64 + 1;
+            if self.b.get_esdt_balance(&la, SLK, n).is_zero() {
+                break;
+            }
+            // (managed types can only be decoded inside a VM context: read through simple-lock itself)
+            let (mut id, mut ue): (Vec<u8>, u64) = (vec![], 0);
+            self.b
+                .execute_query(&self.lock, |sc| {
+                    let attr: LockedTokenAttributes<DebugApi> = sc.locked_token().get_token_attributes(n);
+                    id = attr.original_token_id.clone().unwrap_esdt().to_boxed_bytes().into_vec();
+                    ue = attr.unlock_epoch;
+                })
+                .assert_ok();
+            let t = if id.as_slice() == FIRST { 1 } else if id.as_slice() == SECOND { 2 } else { 0 };
+            self.lk_tok.push(t);
+            self.lk_unlock.push(ue);
+        }
+    }
+
+    /// LOCKED tokens wrapping pool token `t` (1 FIRST, 2 SECOND, 0 anything else) held by `a`
+    fn locked_of(&self, a: &Address, t: u8) -> BigUint {
+        let mut x = BigUint::zero();
+        for (i, tt) in self.lk_tok.iter().enumerate() {
+            if *tt == t {
+                x += self.b.get_esdt_balance(a, SLK, i as u64 + 1);
+            }
+        }
+        x
     }
 
     fn x_reserves(&mut self, first: bool) -> (BigUint, BigUint) {
@@ -283,10 +368,15 @@ impl PairWorld {
             "none".into()
         };
         let sp = self.sp_line();
+        let lsc = match s.lock_sc {
+            0 => "none",
+            1 => "sl",
+            _ => "other",
+        };
         format!(
-            "r={},{} S={} bal={},{} lpc={} own={} coll={},{} burn={},{} ext={},{} st={} x1={} x2={} sp={}",
+            "r={},{} S={} bal={},{} lpc={} own={} coll={},{} burn={},{} ext={},{} st={} x1={} x2={} sp={} lock={},{},{} ep={} slk={},{}",
             s.r1, s.r2, s.s, s.bal1, s.bal2, s.lpc, s.own, s.coll1, s.coll2, s.burn1, s.burn2,
-            s.ext1, s.ext2, st, x1, x2, sp
+            s.ext1, s.ext2, st, x1, x2, sp, s.lock_deadline, s.lock_unlock, lsc, s.epoch, s.slk1, s.slk2
         )
     }
 
@@ -329,6 +419,9 @@ impl PairWorld {
             if pre.r1 != post.r1 || pre.r2 != post.r2 || pre.s != post.s || pre.bal1 != post.bal1
                 || pre.bal2 != post.bal2 || pre.lpc != post.lpc || pre.user1 != post.user1
                 || pre.user2 != post.user2 || pre.userlp != post.userlp
+                || pre.slk1 != post.slk1 || pre.slk2 != post.slk2 || pre.userlk1 != post.userlk1
+                || pre.userlk2 != post.userlk2 || pre.lock_deadline != post.lock_deadline
+                || pre.lock_unlock != post.lock_unlock || pre.lock_sc != post.lock_sc
             {
                 tr.fail("C01", "failed_tx_changes_state", site, "state differs after failed tx");
             }
@@ -350,7 +443,9 @@ impl PairWorld {
             if (i as u64 + 1) == who {
                 continue;
             }
-            if pre.user1[i] != post.user1[i] || pre.user2[i] != post.user2[i] || pre.userlp[i] != post.userlp[i] {
+            if pre.user1[i] != post.user1[i] || pre.user2[i] != post.user2[i] || pre.userlp[i] != post.userlp[i]
+                || pre.userlk1[i] != post.userlk1[i] || pre.userlk2[i] != post.userlk2[i]
+            {
                 tr.fail("C03", "no_credit_to_other_user", site, &format!("user u{} balance changed", i + 1));
             }
         }
@@ -426,6 +521,19 @@ impl World for PairWorld {
             sc.add_known_tokens(tokens);
         })
         .assert_ok();
+        // the real simple-lock contract (deployed as the pd world / the repo's own tests do)
+        b.set_block_epoch(0);
+        let lock: LockW = b.create_sc_account(&zero, Some(&owner), lock_builder as fn() -> LockObj, "lock.wasm");
+        b.execute_tx(&owner, &lock, &zero, |sc| {
+            sc.init();
+            sc.locked_token().set_token_id(managed_token_id!(SLK));
+        })
+        .assert_ok();
+        b.set_esdt_local_roles(
+            lock.address_ref(),
+            SLK,
+            &[EsdtLocalRole::NftCreate, EsdtLocalRole::NftAddQuantity, EsdtLocalRole::NftBurn],
+        );
         // liquidity + whitelist of the external pairs
         let parse_x = |s: &str| -> (BigUint, BigUint, bool) {
             let p: Vec<&str> = s.split(',').collect();
@@ -452,7 +560,7 @@ impl World for PairWorld {
         let xf_init = b.get_esdt_balance(xf.address_ref(), FIRST, 0);
         let xs_init = b.get_esdt_balance(xs.address_ref(), SECOND, 0);
         let mut w = PairWorld {
-            b, owner, users, pair, xf, xs, coll,
+            b, owner, users, pair, xf, xs, coll, lock, epoch: 0, lk_tok: vec![], lk_unlock: vec![],
             init1: BigUint::zero(), init2: BigUint::zero(), xf_init, xs_init,
             trusted_first: false, trusted_second: false, dest_addrs: vec![], next_dest: 0,
             round: 0, had_liquidity: false, last_quote: None, user_funds: funds, pending: vec![], adder: if adder >= 1 && adder <= nusers { Some(adder) } else { None },
@@ -484,6 +592,24 @@ impl World for PairWorld {
         let s = self.snap();
         let nu = self.users.len() as u64;
         let u = rng.range(1, nu);
+        // output locking configured at the start of most histories: deadline a few epochs
+        // ahead, unlock epoch before / at / after it (all three delivery branches get reached)
+        if step == 0 && rng.chance(7, 10) {
+            let dl = if rng.chance(1, 8) { 0 } else { rng.range(1, 6) };
+            let ul = match rng.below(8) {
+                0 => 0,
+                1 | 2 => rng.range(1, dl.max(1)),
+                3 => dl,
+                _ => dl + rng.range(1, 6),
+            };
+            self.pending.push(format!("setLockUnlock 100 {}", ul));
+            self.pending.push(format!("setLockDeadline 100 {}", dl));
+            return ('O', "setLockSc 100 sl".to_string());
+        }
+        // a locking address without `lockTokens` blocks every swap while locking is on: repair it often
+        if s.lock_sc != 1 && s.epoch < s.lock_deadline && rng.chance(1, 2) {
+            return ('O', "setLockSc 100 sl".to_string());
+        }
         // bootstrap: make the pool usable quickly in most histories
         let cap1 = s.user1[(u - 1) as usize].clone();
         let cap2 = s.user2[(u - 1) as usize].clone();
@@ -508,8 +634,28 @@ impl World for PairWorld {
                 (false, _) => if self.adder.is_some() && rng.chance(2, 3) { ('O', "setState inactive".to_string()) } else { ('O', format!("addLiq {} {} {} 1 1", u, a1, a2)) },
             };
         }
-        if s.state != 1 && rng.chance(2, 3) {
-            return ('O', "setState active".to_string());
+        // `addInitialLiquidity` must stay a one-off: attempt it with VALID payments in every state
+        // of a pool that already has liquidity (Active, PartialActive, Inactive after a pause),
+        // by the configured adder / by anyone when there is none (and sometimes by the wrong caller)
+        let init_attempt = |rng: &mut Rng, me: &Self| -> String {
+            let a = |rng: &mut Rng, r: &BigUint| -> BigUint {
+                match rng.below(4) {
+                    0 => BigUint::from(rng.range(1001, 5000)),
+                    1 => r / 3u32 + BigUint::from(1001u32),
+                    2 => r.clone() + BigUint::from(1001u32),
+                    _ => rng.magnitude(20) + BigUint::from(1001u32),
+                }
+            };
+            let c = if rng.chance(1, 6) { rng.range(1, nu) } else { me.adder.unwrap_or(u) };
+            format!("addInitial {} {} {}", c, a(rng, &s.r1), a(rng, &s.r2))
+        };
+        if s.state != 1 {
+            if rng.chance(1, 3) {
+                return ('O', init_attempt(rng, self));
+            }
+            if rng.chance(1, 2) {
+                return ('O', "setState active".to_string());
+            }
         }
         let weights = [
             14, // 0 swapIn
@@ -527,6 +673,10 @@ impl World for PairWorld {
             3,  // 12 setTrusted
             6,  // 13 queries
             3,  // 14 malformed
+            4,  // 15 locking setters
+            5,  // 16 epoch
+            3,  // 17 addInitialLiquidity on a pool that has liquidity (whatever the state)
+            4,  // 18 pause episode: pause, addInitialLiquidity while paused with liquidity, resume
         ];
         let k = if step < 6 && rng.chance(1, 2) { *rng.pick(&[6usize, 7, 12, 9, 8]) } else { rng.weighted(&weights) };
         let d = if rng.chance(1, 2) { "ab" } else { "ba" };
@@ -652,7 +802,7 @@ impl World for PairWorld {
                 }
             }
             7 => ('O', format!("setCollector {}", *rng.pick(&[1u64, 10, 50_000, 100_000, 33_333, 0, 100_001]))),
-            8 => ('O', format!("setState {}", rng.pick(&["active", "active", "partial", "inactive", "active"]))),
+            8 => ('O', format!("setState {}", rng.pick(&["active", "partial", "inactive", "inactive", "active"]))),
             9 => {
                 if rng.chance(1, 4) { ('O', format!("removeWhitelist {}", u)) } else { ('O', format!("whitelist {}", u)) }
             }
@@ -679,6 +829,42 @@ impl World for PairWorld {
                     ('O', format!("setTrusted {} {} {} {}", name, a, c, if live { 1 } else { 0 }))
                 } else {
                     ('O', format!("setTrusted {} none", name))
+                }
+            }
+            17 => ('O', init_attempt(rng, self)),
+            18 => {
+                // pending is a stack: pushed in reverse order of execution
+                self.pending.push("setState active".to_string());
+                if rng.chance(1, 2) {
+                    self.pending.push(format!("addLiq {} {} {} 1 1", u, &s.r1 / 3u32 + &one, &s.r2 / 3u32 + &one)); // not while paused
+                }
+                let again = init_attempt(rng, self);
+                if rng.chance(1, 3) {
+                    self.pending.push(again);
+                }
+                let first = init_attempt(rng, self);
+                self.pending.push(first);
+                ('O', format!("setState {}", rng.pick(&["inactive", "inactive", "inactive", "partial"])))
+            }
+            15 => {
+                let who = if rng.chance(1, 8) { u } else { 100 };
+                match rng.below(5) {
+                    0 | 1 => {
+                        let e = match rng.below(5) { 0 => 0, 1 => s.epoch, 2 => s.epoch + 1, 3 => s.epoch + rng.range(2, 5), _ => rng.range(0, 8) };
+                        ('O', format!("setLockDeadline {} {}", who, e))
+                    }
+                    2 | 3 => {
+                        let e = match rng.below(5) { 0 => 0, 1 => s.epoch, 2 => s.epoch + 1, 3 => s.epoch + rng.range(2, 10), _ => rng.range(0, 12) };
+                        ('O', format!("setLockUnlock {} {}", who, e))
+                    }
+                    _ => ('O', format!("setLockSc {} {}", who, rng.pick(&["sl", "sl", "sl", "sl", "sl", "coll", "user", "sl"]))),
+                }
+            }
+            16 => {
+                if s.epoch > 0 && rng.chance(1, 10) {
+                    ('O', format!("epoch {}", s.epoch - 1)) // time does not run backwards: must fail
+                } else {
+                    ('O', format!("epoch {}", s.epoch + *rng.pick(&[0u64, 1, 1, 1, 2, 3])))
                 }
             }
             13 => {
@@ -726,7 +912,33 @@ impl World for PairWorld {
         let owner = self.owner.clone();
         let mut outs = String::from("0 0 0");
         let mut who: u64 = 0;
+        // what the caller holds before / pays with the call (pool tokens), to measure what it receives
+        let caller_id: u64 = match w[0] {
+            "addInitial" | "addLiq" | "removeLiq" | "swapIn" | "swapOut" | "swapNoFee" | "buyback" => w[1].parse().unwrap(),
+            _ => 0,
+        };
+        let paid: (BigUint, BigUint) = match w[0] {
+            "addInitial" | "addLiq" => (big(w[2]), big(w[3])),
+            "swapIn" | "swapOut" | "swapNoFee" => {
+                if w[2] == "ab" { (big(w[3]), BigUint::zero()) } else { (BigUint::zero(), big(w[3])) }
+            }
+            _ => (BigUint::zero(), BigUint::zero()),
+        };
+        let cb_pre = if caller_id != 0 { Some(self.caller_bals(caller_id)) } else { None };
+        let lkd_pre = if caller_id != 0 { self.locked_detail(caller_id) } else { vec![] };
+        // While locking is on and `lockingScAddress` was never set, the swap endpoints abort with
+        // "storage decode error (key: lockingScAddress): bad array length" — a failed transaction
+        // on chain.  In this white-box VM that error is raised with the managed-types mutex held,
+        // and `StorageCache::drop` (which writes the reserves back during unwinding) then panics on
+        // the poisoned mutex and kills the process.  Such a swap is therefore not executed; it is
+        // reported as the failed transaction it is.
+        let unset_lock_abort = matches!(w[0], "swapIn" | "swapOut") && pre.epoch < pre.lock_deadline && pre.lock_sc == 0;
         let ok: bool = match w[0] {
+            "swapIn" | "swapOut" if unset_lock_abort => {
+                who = w[1].parse().unwrap();
+                tr.count("branch.swap_not_executed_unset_locking_address");
+                false
+            }
             "addInitial" => {
                 who = w[1].parse().unwrap();
                 let c = self.user(who);
@@ -741,7 +953,36 @@ impl World for PairWorld {
                     o = (to_big(&lp.amount), to_big(&f.amount), to_big(&s2.amount));
                 });
                 outs = format!("{} {} {}", o.0, o.1, o.2);
-                r.result_status == 0
+                let ok = r.result_status == 0;
+                tr.count(&format!(
+                    "branch.addInitial_{}_{}.{}",
+                    match pre.state { 0 => "inactive", 1 => "active", _ => "partial" },
+                    if pre.s.is_zero() { "empty" } else { "with_liquidity" },
+                    if ok { "ok" } else { "err" }
+                ));
+                if ok {
+                    // C04: the initial deposit is a one-off on an empty, inactive pool; it mints
+                    // min(a1,a2), locks 1000 of it in the pair and uses both payments in full
+                    let post = self.snap();
+                    let (a1, a2) = (big(w[2]), big(w[3]));
+                    let l = a1.clone().min(a2.clone());
+                    let k = BigUint::from(1000u32);
+                    if !pre.s.is_zero() || pre.state != 0 {
+                        tr.fail("C04", "initial_liquidity_only_once", &site,
+                            &format!("addInitialLiquidity accepted with LP supply {} in state {}", pre.s, pre.state));
+                    }
+                    if l <= k || o.0 != &l - &k || post.s != &pre.s + &l || post.own != &pre.own + &k || o.1 != a1 || o.2 != a2 {
+                        tr.fail("C04", "first_deposit_locks_1000", &site,
+                            &format!("min={l} lp={} used=({},{}) S {} -> {} pair's own LP {} -> {}", o.0, o.1, o.2, pre.s, post.s, pre.own, post.own));
+                    }
+                    if who >= 1 && (who as usize) <= self.users.len() {
+                        let i = (who - 1) as usize;
+                        if post.userlp[i] != &pre.userlp[i] + &o.0 || post.user1[i] != &pre.user1[i] - &a1 || post.user2[i] != &pre.user2[i] - &a2 {
+                            tr.fail("C04", "add_deltas_match_result", &site, "caller's LP / token deltas differ from the result");
+                        }
+                    }
+                }
+                ok
             }
             "addLiq" => {
                 who = w[1].parse().unwrap();
@@ -856,6 +1097,7 @@ impl World for PairWorld {
                         tr.fail("C03", "fixed_input_formula", &site, &format!("expected {e} got {o} min {min}"));
                     }
                     self.check_swap_conservation(tr, &site, who, d, &a, &o, &pre, &post);
+                    self.check_swap_lock(tr, &site, who, d, &o, &pre, &post, &lkd_pre);
                     if let Some((q, v)) = self.last_quote.take() {
                         if q == format!("amountOut {} {}", d, a) && v != o {
                             tr.fail("C20", "quote_eq_exec.amountOut", &site, &format!("quote {v} exec {o}"));
@@ -896,6 +1138,7 @@ impl World for PairWorld {
                         tr.fail("C03", "fixed_output_charge_sufficient", &site, &format!("charge {charged} buys {back} < {want}"));
                     }
                     self.check_swap_conservation(tr, &site, who, d, &charged, &o.0, &pre, &post);
+                    self.check_swap_lock(tr, &site, who, d, &o.0, &pre, &post, &lkd_pre);
                     if let Some((q, v)) = self.last_quote.take() {
                         if q == format!("amountIn {} {}", d, want) && v != charged {
                             tr.fail("C20", "quote_eq_exec.amountIn", &site, &format!("quote {v} exec {charged}"));
@@ -1019,6 +1262,44 @@ impl World for PairWorld {
                 }
                 ok
             }
+            "setLockDeadline" | "setLockUnlock" | "setLockSc" => {
+                // the caller is part of the op: only callers with owner permissions may configure
+                let cid: u64 = w[1].parse().unwrap();
+                let c = self.user(cid);
+                let ok = match w[0] {
+                    "setLockDeadline" => {
+                        let e: u64 = w[2].parse().unwrap();
+                        self.b.execute_tx(&c, &self.pair, &zero, |sc| sc.set_locking_deadline_epoch(e)).result_status == 0
+                    }
+                    "setLockUnlock" => {
+                        let e: u64 = w[2].parse().unwrap();
+                        self.b.execute_tx(&c, &self.pair, &zero, |sc| sc.set_unlock_epoch(e)).result_status == 0
+                    }
+                    _ => {
+                        let target = match w[2] {
+                            "sl" => self.lock.address_ref().clone(),
+                            "coll" => self.coll.address_ref().clone(),
+                            _ => self.users[0].clone(),
+                        };
+                        self.b.execute_tx(&c, &self.pair, &zero, |sc| sc.set_locking_sc_address(managed_address!(&target))).result_status == 0
+                    }
+                };
+                if ok && cid != 100 {
+                    tr.fail("C03", "lock_config_owner_only", &site, &format!("caller u{cid} has no owner permission but the setter succeeded"));
+                }
+                if cid != 100 { tr.count(if ok { "branch.lockcfg_nonowner_ok" } else { "branch.lockcfg_nonowner_rejected" }); }
+                ok
+            }
+            "epoch" => {
+                let e: u64 = w[1].parse().unwrap();
+                if e >= self.epoch {
+                    self.epoch = e;
+                    self.b.set_block_epoch(e);
+                    true
+                } else {
+                    false
+                }
+            }
             "advance" => {
                 let r: u64 = w[1].parse().unwrap();
                 if r >= self.round {
@@ -1069,8 +1350,27 @@ impl World for PairWorld {
             other => panic!("unknown op {other}"),
         };
         let post = self.snap();
-        if w[0] != "bad" || ok {
-            // (for `bad` the helper token top-up is outside the ledger; state equality is still checked)
+        // what the caller received from the pair, measured on the real balances
+        let mut recv = [BigUint::zero(), BigUint::zero(), BigUint::zero(), BigUint::zero()];
+        if let (true, Some(cp)) = (ok, cb_pre.as_ref()) {
+            let cq = self.caller_bals(caller_id);
+            let have = [&cq[0] + &paid.0, &cq[1] + &paid.1, cq[2].clone(), cq[3].clone()];
+            for k in 0..4 {
+                if have[k] < cp[k] {
+                    tr.fail("C03", "caller_deltas", &site, &format!("caller lost more than it paid (slot {k}): before {} after {} paid ({},{})", cp[k], have[k], paid.0, paid.1));
+                } else {
+                    recv[k] = &have[k] - &cp[k];
+                }
+            }
+        }
+        let outs = format!("{} recv={},{} lk={},{}", outs, recv[0], recv[1], recv[2], recv[3]);
+        if !post.pairlk.is_zero() {
+            tr.fail("C03", "pair_keeps_no_locked_tokens", &site, &format!("pair holds {} LOCKED tokens after the transaction", post.pairlk));
+        }
+        if post.slk1 != pre.slk1 || post.slk2 != pre.slk2 {
+            if !(ok && matches!(w[0], "swapIn" | "swapOut")) {
+                tr.fail("C03", "simple_lock_holdings_only_move_on_swaps", &site, &format!("simple-lock holdings ({},{}) -> ({},{})", pre.slk1, pre.slk2, post.slk1, post.slk2));
+            }
         }
         self.oracle_common(tr, &site, &pre, &post, ok);
         if ok && who != 0 && matches!(w[0], "swapIn" | "swapOut" | "addLiq" | "removeLiq" | "addInitial" | "swapNoFee" | "buyback") {
@@ -1087,8 +1387,16 @@ impl World for PairWorld {
             if post.coll1 != pre.coll1 || post.coll2 != pre.coll2 { tr.count("branch.collector_cut"); }
             if post.burn1 != pre.burn1 || post.burn2 != pre.burn2 { tr.count("branch.burn"); }
             if post.ext1 != pre.ext1 || post.ext2 != pre.ext2 { tr.count("branch.extern_swap"); }
+            if matches!(w[0], "swapIn" | "swapOut") {
+                if pre.epoch >= pre.lock_deadline { tr.count("branch.swap_plain_locking_off"); }
+                else if pre.epoch >= pre.lock_unlock { tr.count("branch.swap_plain_unlock_epoch_reached"); }
+                else { tr.count("branch.swap_locked_output"); }
+            }
         } else {
             tr.count(&format!("err.{}", site));
+            if matches!(w[0], "swapIn" | "swapOut") && pre.epoch < pre.lock_deadline && pre.lock_sc != 1 {
+                tr.count("branch.swap_rejected_locking_address_unusable");
+            }
             tr.res_err(n);
         }
     }
@@ -1172,6 +1480,66 @@ impl PairWorld {
         }).assert_ok();
         live
     }
+    /// [plain FIRST, plain SECOND, LOCKED wrapping FIRST, LOCKED wrapping SECOND] held by caller `who`
+    fn caller_bals(&mut self, who: u64) -> [BigUint; 4] {
+        self.discover_locked_nonces();
+        let a = self.user(who);
+        [self.bal(&a, FIRST), self.bal(&a, SECOND), self.locked_of(&a, 1), self.locked_of(&a, 2)]
+    }
+    /// LOCKED balance of caller `who` per nonce (index = nonce - 1)
+    fn locked_detail(&mut self, who: u64) -> Vec<BigUint> {
+        self.discover_locked_nonces();
+        let a = self.user(who);
+        (0..self.lk_tok.len()).map(|i| self.b.get_esdt_balance(&a, SLK, i as u64 + 1)).collect()
+    }
+    /// C03, output locking: the caller receives exactly `out` of the output token — as LOCKED
+    /// tokens (wrapping that token, unlocking at the configured epoch) while
+    /// `epoch < lockingDeadlineEpoch` and the unlock epoch is still ahead, as the plain token
+    /// otherwise; never both, never neither; simple-lock's holdings back the LOCKED amount 1:1.
+    #[allow(clippy::too_many_arguments)]
+    fn check_swap_lock(&mut self, tr: &mut Trace, site: &str, who: u64, d: &str, out: &BigUint, pre: &Snap, post: &Snap, lkd_pre: &[BigUint]) {
+        if who == 0 || who as usize > self.users.len() {
+            return;
+        }
+        let i = (who - 1) as usize;
+        let ab = d == "ab";
+        let (plain_pre, plain_post) = if ab { (&pre.user2[i], &post.user2[i]) } else { (&pre.user1[i], &post.user1[i]) };
+        let (lk_out_pre, lk_out_post) = if ab { (&pre.userlk2[i], &post.userlk2[i]) } else { (&pre.userlk1[i], &post.userlk1[i]) };
+        let (lk_in_pre, lk_in_post) = if ab { (&pre.userlk1[i], &post.userlk1[i]) } else { (&pre.userlk2[i], &post.userlk2[i]) };
+        let (slk_out_pre, slk_out_post, slk_in_pre, slk_in_post) =
+            if ab { (&pre.slk2, &post.slk2, &pre.slk1, &post.slk1) } else { (&pre.slk1, &post.slk1, &pre.slk2, &post.slk2) };
+        if plain_post < plain_pre || lk_out_post < lk_out_pre {
+            tr.fail("C03", "output_locked_or_plain", site, "caller's output-token holdings decreased");
+            return;
+        }
+        let got_plain = plain_post - plain_pre;
+        let got_locked = lk_out_post - lk_out_pre;
+        let expect_locked = pre.epoch < pre.lock_deadline && pre.epoch < pre.lock_unlock;
+        let (ep, el) = if expect_locked { (BigUint::zero(), out.clone()) } else { (out.clone(), BigUint::zero()) };
+        if got_plain != ep || got_locked != el || lk_in_post != lk_in_pre {
+            tr.fail("C03", "output_locked_or_plain", site,
+                &format!("epoch {} deadline {} unlock {}: out {out} expected plain {ep} locked {el}; received plain {got_plain} locked {got_locked} (locked input-token delta {} -> {})",
+                    pre.epoch, pre.lock_deadline, pre.lock_unlock, lk_in_pre, lk_in_post));
+        }
+        if slk_out_post < slk_out_pre || (slk_out_post - slk_out_pre) != got_locked || slk_in_post != slk_in_pre {
+            tr.fail("C03", "locked_output_backed", site,
+                &format!("simple-lock holdings out-token {} -> {} in-token {} -> {}; LOCKED delivered {got_locked}", slk_out_pre, slk_out_post, slk_in_pre, slk_in_post));
+        }
+        if pre.epoch < pre.lock_deadline && pre.lock_sc != 1 {
+            tr.fail("C03", "lock_needs_simple_lock", site, "swap succeeded while locking is on and the locking address is not simple-lock");
+        }
+        // the LOCKED tokens received wrap the output token and unlock at the configured epoch
+        let lkd_post = self.locked_detail(who);
+        let want_tok = if ab { 2u8 } else { 1u8 };
+        for (k, q) in lkd_post.iter().enumerate() {
+            let p = lkd_pre.get(k).cloned().unwrap_or_else(BigUint::zero);
+            if *q != p && (self.lk_tok[k] != want_tok || self.lk_unlock[k] != pre.lock_unlock) {
+                tr.fail("C03", "locked_output_attributes", site,
+                    &format!("LOCKED nonce {} (token slot {}, unlock {}) changed {} -> {}; expected token slot {want_tok}, unlock {}",
+                        k + 1, self.lk_tok[k], self.lk_unlock[k], p, q, pre.lock_unlock));
+            }
+        }
+    }
     #[allow(clippy::too_many_arguments)]
     fn check_swap_conservation(&self, tr: &mut Trace, site: &str, who: u64, d: &str, charged: &BigUint, out: &BigUint, pre: &Snap, post: &Snap) {
         let i = (who - 1) as usize;
@@ -1180,8 +1548,10 @@ impl PairWorld {
         } else {
             (&pre.user2[i], &pre.user1[i], &post.user2[i], &post.user1[i])
         };
-        if pin - qin != *charged || qout - pout != *out {
-            tr.fail("C03", "caller_deltas", site, &format!("gave {} (expected {charged}) received {} (expected {out})", pin - qin, qout - pout));
+        let (lpre, lpost) = if d == "ab" { (&pre.userlk2[i], &post.userlk2[i]) } else { (&pre.userlk1[i], &post.userlk1[i]) };
+        let received = (qout + lpost) - (pout + lpre); // plain + LOCKED units of the output token
+        if pin - qin != *charged || received != *out {
+            tr.fail("C03", "caller_deltas", site, &format!("gave {} (expected {charged}) received {} (expected {out})", pin - qin, received));
         }
         let (bal_in_pre, bal_in_post, r_out_pre, r_out_post, bal_out_pre, bal_out_post) = if d == "ab" {
             (&pre.bal1, &post.bal1, &pre.r2, &post.r2, &pre.bal2, &post.bal2)
